@@ -390,6 +390,10 @@ class _KexDHGex(_KexDHBase):
         g = packet.get_mpint()
         packet.check_end()
 
+        if not (KEX_DH_GEX_MIN_SIZE <= p.bit_length() <=
+                (self._max_size or KEX_DH_GEX_MAX_SIZE)):
+            raise ProtocolError('Kex DH group out of range')
+
         self._init_group(g, p)
         self._gex_data += MPInt(p) + MPInt(g)
         self._perform_init()
